@@ -7,8 +7,8 @@ import impl_sym
 from framework import Case
 
 PROP = "C18"
-GENERATED = ['OpSemantics', 'ParserTables', 'SrcSymbolic', 'SrcShape']  # generated files this check's tie depends on
-LEAN_MODULES = ["Properties.C18", "Properties.Prov.Symbolic", "Properties.Prov.Shape"]
+GENERATED = ['OpSemantics', 'ParserTables', 'SrcSymbolic', 'SrcShape', 'SymClasses', 'ShapeLoop']  # generated files this check's tie depends on
+LEAN_MODULES = ["Properties.C18", "Properties.CoreSym", "Properties.Prov.Symbolic", "Properties.Prov.Shape"]
 RULE = (
     "corpus; exhaustive expression trees with <=2 operator nodes over atoms {a, b, 0, 1, 2, 3} and operators + - * // ** Min Max ISqrt Group "
     "(every nesting on either side), seeded random trees to depth 6 (thorough: <=3 nodes exhaustive, depth 8); scopes with small values so "
